@@ -73,6 +73,7 @@ class AsyncTask(futures.FutureBase):
         self._contexts = OrderedDict()
         self._contexts_active = False
         self._dependencies_scheduled = False
+        self._blocked_in_pass = 0
         self._total_time = 0
         self._name = None
         self.perf_stats = {}
